@@ -1776,6 +1776,17 @@ def run(chk):
     #      theorems gen_hsv2rgbV3/C4, gen_rgb2hsvV3/C4 prove the regenerated trees equal to the hand model Model/ColorAlgo.lean
     binsc = troute.build_extractors(chk, [dict(name="sym_c17c", source="sym/sym_c17c.cpp")])
     symc = binsc.get("sym_c17c")
+    # the token substitution `double` := Sym must change the scalar type and nothing else
+    csrc = open(os.path.join(lib.REPO, "src", "Imath", "ImathColorAlgo.cpp")).read()
+    ccode = re.sub(r"//[^\n]*|/\*.*?\*/", "", csrc, flags=re.S)
+    odd = [w for w in ("long double", "#define", "sizeof", "reinterpret_cast", "memcpy", "union") if w in ccode] + \
+          [m.group(0)[:40] for m in re.finditer(r'"[^"\n]*double[^"\n]*"', ccode)]
+    chk.oblige("source:ImathColorAlgo.cpp: nothing in the file makes `#define double Sym` change more than the scalar type "
+               "(no long double / #define / sizeof / reinterpret_cast / memcpy / union / string mentioning double)", "translator", not odd, odd or None)
+    if odd:
+        chk.fail("source:ImathColorAlgo.cpp", "source:c17c:token-substitution-unsafe",
+                 "ImathColorAlgo.cpp now contains constructs under which compiling it with `double` := Sym is not a faithful copy: " + ", ".join(odd),
+                 {"constructs": odd}, False)
     if symc:
         indexc, _ = troute.regenerate(chk, symc, "c17c")
         troute.tv(chk, symc, "c17c", 4000 if chk.thorough else 800)
